@@ -49,32 +49,7 @@ fn clone_is_identical_then_independent() {
 
 // ------------------------------------------------------------------ ownership conservation with drop-tracked payloads
 
-pub const IDS: usize = 8;
-static mut DROPS: [u8; IDS] = [0; IDS];
-
-#[derive(PartialEq, Eq, Hash)]
-pub struct Tk(pub u8);
-pub struct Tv(pub u8);
-impl Drop for Tk {
-    fn drop(&mut self) {
-        unsafe { DROPS[self.0 as usize] += 1 }
-    }
-}
-impl Drop for Tv {
-    fn drop(&mut self) {
-        unsafe { DROPS[self.0 as usize] += 1 }
-    }
-}
-impl Vid for Tk {
-    fn vid(&self) -> u8 {
-        self.0
-    }
-}
-impl Vid for Tv {
-    fn vid(&self) -> u8 {
-        self.0
-    }
-}
+pub use crate::verif_hooks::gen::{drops, reset_drops, Tk, Tv, IDS};
 
 type TLru = RawLRU<Tk, Tv, DefaultEvictCallback, PoisonHasher>;
 
@@ -93,13 +68,9 @@ fn any_tracked(mincap: usize) -> (TLru, Abs) {
         }
         i += 1;
     }
-    unsafe { DROPS = [0; IDS] };
+    reset_drops();
     let l: TLru = RawLRU::verif_from_parts(a.cap, PoisonHasher, None, a.n, |i| (Tk(a.k[i]), Tv(a.v[i])));
     (l, a)
-}
-
-fn drops(id: u8) -> u8 {
-    unsafe { DROPS[id as usize] }
 }
 
 /// created: bitmask of ids handed to the cache (pre-state and arguments).  After the caller has dropped
@@ -107,7 +78,7 @@ fn drops(id: u8) -> u8 {
 fn conservation(created: u8, post: &Abs) -> bool {
     let mut ok = true;
     let mut id = 0u8;
-    while (id as usize) < IDS {
+    while (id as usize) < 8 {
         let was_created = (created >> id) & 1 == 1;
         let mut retained = false;
         let mut i = 0;
@@ -129,7 +100,7 @@ fn conservation(created: u8, post: &Abs) -> bool {
 fn all_released(created: u8) -> bool {
     let mut ok = true;
     let mut id = 0u8;
-    while (id as usize) < IDS {
+    while (id as usize) < 8 {
         let want = if (created >> id) & 1 == 1 { 1 } else { 0 };
         if drops(id) != want {
             ok = false;
@@ -153,8 +124,8 @@ fn mask_of(a: &Abs) -> u8 {
 }
 
 #[kani::proof]
-#[kani::unwind(10)]
-fn tracked_put() {
+#[kani::unwind(12)]
+fn tracked_put_leakcheck() {
     let (mut l, pre) = any_tracked(0);
     let k: u8 = kani::any();
     let v: u8 = kani::any();
@@ -175,7 +146,7 @@ fn tracked_put() {
         // cannot give an equal key a different id (Eq is by id), so account for the duplicate by hand:
         // the stored key object and the argument are indistinguishable; exactly one of them must have been dropped
         assert!(drops(k) == 1, "[C04.once] on an update the surplus key object is dropped exactly once, the other stays");
-        unsafe { DROPS[k as usize] = 0 };
+        crate::verif_hooks::gen::set_drops(k, 0);
         r
     } else {
         l.put(Tk(k), Tv(v))
@@ -188,8 +159,8 @@ fn tracked_put() {
 }
 
 #[kani::proof]
-#[kani::unwind(10)]
-fn tracked_remove_family() {
+#[kani::unwind(12)]
+fn tracked_remove_family_leakcheck() {
     let (mut l, pre) = any_tracked(0);
     let created = mask_of(&pre);
     let which: u8 = kani::any();
@@ -212,7 +183,7 @@ fn tracked_remove_family() {
     }
     // the probe key Tk(k) built for remove() is the caller's own object
     if which == 0 {
-        unsafe { DROPS[k as usize] -= 1 };
+        crate::verif_hooks::gen::set_drops(k, drops(k) - 1);
     }
     let post = l.verif_abs();
     assert!(l.verif_wf(), "[C03.wf] list well formed after remove/remove_lru/purge/resize");
@@ -225,8 +196,8 @@ fn tracked_remove_family() {
 }
 
 #[kani::proof]
-#[kani::unwind(10)]
-fn tracked_reads_then_drop() {
+#[kani::unwind(12)]
+fn tracked_reads_then_drop_leakcheck() {
     let (mut l, pre) = any_tracked(0);
     let created = mask_of(&pre);
     let k: u8 = kani::any();
